@@ -181,3 +181,32 @@ def _(h):
     h.true('q == -q', P == M)
     h.true('not q != -q', not (P != M))
     h.true('q == q', P == UnitQuaternion(p))
+
+
+# ----------------------------------------------------------------------------- twists, compared as the motions they generate
+
+import math as _math      # noqa: E402
+from spatialmath import Twist3 as _Twist3, Twist2 as _Twist2      # noqa: E402
+
+_TW_RANGES = {'mid': (1e-3, 3.14), 'half-turn-band': (_math.pi - 1.4e-7, _math.pi)}
+
+_LAWS = {
+    'right-identity': lambda X: (X * _Twist3(), X),
+    'left-identity': lambda X: (_Twist3() * X, X),
+    'inverse': lambda X: (X * X.inv(), _Twist3()),
+}
+
+for _ax in ('z', '236'):
+    for _rn, (_lo, _hi) in _TW_RANGES.items():
+        for _law, _f in _LAWS.items():
+            @claim(f'twist-{_law}:{_ax}:{_rn}', values=True, split=True, tol=1e-7,
+                   tier='thorough')       # twist composition = exp, product, log, exp: minutes per claim
+            def _(h, ax=_ax, lo=_lo, hi=_hi, f=_f):
+                """X = twist of a rotation by a symbolic angle about a D-grid axis with a fixed translational part; the law is
+                compared through exp (twist composition passes through exp and log)"""
+                th = h.angle('th', lo, hi)
+                u = [float(x) if not h.sym else x for x in AXES[ax]]
+                X = _Twist3(h.arr([0.1, 0.2, 0.3, th * u[0], th * u[1], th * u[2]]))
+                lhs, rhs = f(X)
+                h.is_type('type', lhs, _Twist3)
+                h.eq('same motion', lhs.exp().A, rhs.exp().A, tol=1e-7)
